@@ -165,6 +165,8 @@ CORPUS = [
     " ", "1-", "1-2:", "1-2:0", "1-2:-1", "2-1:1", "2-1:-1", "5-5:-3", "5-5:0", "1-3,3-5", "1-3,4-6", "10-1:-3,0",
     "1-5:2,2-6:2", "1-5:2,6", "1-4:2,5-7:2", "3,1,2", "1 2", "1٣", "٣1", "a", "1-2-3", "1:2", "- 1", "--1", "1 - - 2",
     "1-2:3:4", "1,2,3,4,5,6,7,8", "-5--1", "-1--5:-1", "-1--5", "100-1:-7,101-200:7",
+    # characters that mean something to whoever formats the error message
+    "1-{5", "7}", "1,{2}", "3 {", "{{Param.X}}", "1-{{Param.N}}", "{", "}", "1%", "1-%s", "1,%d", "1-{0}", "1\\", "5-'", "2\x00", "1-3,{", "1-3,}",
 ]
 
 
